@@ -1,0 +1,15 @@
+//go:build verif
+
+// Contracts for the runtime transaction (I/O) tree accessors (C16).
+// Comment-only. The I/O tree of a round is written by the runtime (executor)
+// and reaches other nodes through storage sync: its keys and values are
+// untrusted input for the accessors below.
+package transaction
+
+//@ func Tree.GetTransactions
+//@   props C16
+//@   safety bounds
+//@   requires t != nil
+//@   precall keyformat\.KeyFormat\)\.Decode$ :: len(argAs[[]byte](0)) >= 34
+//@   note every index into the list of transactions collected so far is inside the list, for EVERY sequence of artifact keys the tree may hold: an output artifact whose input artifact did not come first is rejected ("malformed transaction tree"), never used as an index. This failed on the pinned tree for an output artifact keyed by the hash of the empty string (curTx starts out as Hash.Empty() = H(""), so the "input came before" comparison passed with no transaction collected): finding F11, fixed
+//@   note (call-site obligation) KeyFormat.Decode is handed only keys that are at least as long as the key format ('T' + 32-byte hash + 1-byte kind = 34 bytes): Decode answers false for a foreign prefix but PANICS ("key format: malformed input") for a key with the right prefix that is shorter than the format, and indexes data[0] of an empty key. The keys come from the iterator over the runtime-written I/O tree, so nothing bounds their length from below: FAILS on the pinned tree - known finding F12 (the same holds for GetInputBatch, GetTransaction, GetTags, GetTag and ValidateIOWriteLog)
